@@ -26,7 +26,9 @@ RULE = (
     "intensity affine map, edit outside mask, masked mean, rectangular-mask == crop, mask broadcast form, norm, "
     "reduction, Dice/Tversky identities, module == functional, and - for every subset of the optional mask / weight "
     "arguments x mask dtype form (bool, uint8, float32 0/1, float32 soft, float64) - dtype independence, the documented "
-    "implicit masks of wlcc_loss, edits outside the effective mask, reductions over the effective mask); distinct = (sub-check, loss, options, shape, images, "
+    "implicit masks of wlcc_loss, edits outside the effective mask, reductions over the effective mask; and - for every "
+    "tensor argument of every loss, function and module - the memory layout (transposed view, step-sliced view, stride-0 "
+    "expanded view) does not change the value, raises nothing and leaves the arguments untouched); distinct = (sub-check, loss, options, shape, images, "
     "mask, edge); non-trivial = the edge changed the input bytes (or the option changes the value) and all compared "
     "values are finite"
 )
@@ -42,7 +44,7 @@ MIN_NONTRIVIAL = {"quick": 14000, "thorough": 75000}
 MIN_OUTCOMES = {"quick": 4500, "thorough": 25000}
 MIN_SUB_TRACES = {
     "identity": 100, "range": 50, "symmetry": 100, "affine": 200, "mask-outside": 100, "mask-mean": 100,
-    "mask-roi": 30, "mask-shape": 100, "norm": 100, "reduction": 100, "overlap": 50, "module": 100, "mask-args": 500,
+    "mask-roi": 30, "mask-shape": 100, "norm": 100, "reduction": 100, "overlap": 50, "module": 100, "mask-args": 500, "layout": 300,
 }
 
 EPS32 = 2.0 ** -23
@@ -50,7 +52,7 @@ C = 64.0
 SEED_SAMPLING = 20240
 
 SUBS = ("identity", "range", "symmetry", "affine", "mask-outside", "mask-mean", "mask-roi", "mask-shape", "norm",
-        "reduction", "overlap", "module", "mask-args")
+        "reduction", "overlap", "module", "mask-args", "layout")
 
 
 # ---------------------------------------------------------------------------
@@ -1534,6 +1536,135 @@ def judge_mask_args(case, res):
                 den = float(np.broadcast_to(eff, none.shape).sum()) if (windowed_or_pointwise and eff is not None) else float(none.size)
                 cmp(res, form, "mean!=mean-of-none-over-effective-mask", got, s_ / den, C * EPS32 * sa / den, "'mean' vs sum of 'none' / sum of the effective mask")
 
+
+# ---------------------------------------------------------------------------
+# sub-check: memory layout of every tensor argument (same values, other strides)
+LAYOUT_FORMS = ("transposed", "step-sliced", "expanded")
+
+
+def relayout(t, form):
+    """Same values, other memory layout.  Returns None where the form does not apply."""
+    if form == "contiguous":
+        return t.contiguous()
+    if form == "transposed":  # transposed view of a transposed copy of the last two axes
+        v = t.transpose(-1, -2).contiguous().transpose(-1, -2)
+        return None if v.is_contiguous() else v
+    if form == "step-sliced":  # every second element of a buffer twice as wide
+        big = torch.zeros(tuple(t.shape[:-1]) + (2 * t.shape[-1],), dtype=t.dtype)
+        big[..., ::2] = t
+        v = big[..., ::2]
+        return None if v.is_contiguous() else v
+    if form == "expanded":  # stride-0 batch / channel axis where the argument is constant along it
+        if t.shape[0] == 1 and t.shape[1] == 1:
+            return None
+        if not (bool((t == t[:1]).all()) and bool((t == t[:, :1]).all())):
+            return None
+        v = t[:1, :1].expand(t.shape)
+        return None if v.is_contiguous() else v
+    raise KeyError(form)
+
+
+def layout_losses(tier, shape):
+    return mask_args_losses(tier, shape)
+
+
+def cases_layout(tier, shape, pair, tab):
+    out = []
+    for fn, kw in layout_losses(tier, shape):
+        seg = fn.startswith(("dice", "tversky"))
+        imgs = list(seg_pairs(tier)[0]) if seg else list(pair)
+        names = ["source", "target"] + list(mask_arg_names(fn))
+        for arg in names + ["all"]:
+            for form in LAYOUT_FORMS:
+                if form == "expanded" and arg in ("source", "target"):
+                    continue  # images are not constant along batch / channel
+                for via in ("function", "module") if fn in MODULE_OF else ("function",):
+                    reds = (("none", None) if HAS_REDUCTION(fn) else (None,)) if via == "function" else (None,)
+                    for red in reds:
+                        out.append({"sub": "layout", "fn": fn, "kw": kw, "shape": list(shape), "imgs": imgs, "tab": tab, "arg": arg, "layout": form, "via": via, "red": red})
+    return out
+
+
+def judge_layout(case, res):
+    fn, kw0, shape, arg, form, via, red = case["fn"], case["kw"], case["shape"], case["arg"], case["layout"], case["via"], case["red"]
+    x, y = xy(case)
+    names = list(mask_arg_names(fn))
+    N, Cc = shape[0], shape[1]
+    sig = f"{label_of(fn, kw0)}/{via}/reduction={red}/arg={arg}/layout={form}"
+    base = dict(kw0)
+    if fn in ("mi_loss", "nmi_loss"):
+        base = mi_range(base, x, y)
+    # mask arguments written out per item (and per channel where the loss documents it) so that 'expanded' applies
+    full = (N, 1) + tuple(shape[2:]) if (fn in ("mi_loss", "nmi_loss") or fn.startswith("tversky")) else tuple(shape)
+    tens = {"source": T(x), "target": T(y)}
+    for a in names:
+        m = np_mask({"mask": "half", "weight": "half", "source_mask": "bands", "target_mask": "b1"}[a], shape)
+        tens[a] = T(np.broadcast_to(m[:1, :1], full).copy())
+    targets = list(tens) if arg == "all" else [arg]
+    alt = dict(tens)
+    changed = False
+    for a in targets:
+        v = relayout(tens[a], form)
+        if v is not None:
+            alt[a] = v
+            changed = True
+    if not changed:
+        res.undef.append("layout form not applicable to this argument")
+        return
+
+    def evaluate(tt):
+        kw = {k: (tuple(v) if isinstance(v, list) else v) for k, v in base.items()}
+        if via == "module":
+            import deepali.losses as LL
+
+            ctor = {k: v for k, v in kw.items() if k not in ("vmin", "vmax")}
+            if "num_bins" in ctor:
+                ctor["bins"] = ctor.pop("num_bins")
+            if fn in ("mi_loss", "nmi_loss"):
+                ctor["vmin"], ctor["vmax"] = base["vmin"], base["vmax"]
+            mod = getattr(LL, MODULE_OF[fn])(**ctor)
+            return mod(tt["source"], tt["target"], **{("mask" if a == "weight" else a): tt[a] for a in names})
+        if red:
+            kw["reduction"] = red
+        return getattr(L(), fn)(tt["source"], tt["target"], **{a: tt[a] for a in names}, **kw)
+
+    res.trans += 2
+    res.states.append(h64(fn, via, red, arg, form, x, y))
+    st0, ref = guarded(evaluate, tens)
+    if st0 == "raises":
+        res.undef.append("contiguous form raises (judged by the other sub-checks)")
+        return
+    fp = {a: (tensor_bytes(v), v._version) for a, v in alt.items()}
+    st1, got = guarded(evaluate, alt)
+    if st1 == "raises":
+        # plain raises=<Type> (call site in the detail) so that one known / fixed line covers the layout family
+        res.bad(f"{sig}/raises={type(got).__name__}", f"{fn} with a non-contiguous '{arg}' ({form}; strides {tuple(alt[targets[0]].stride()) if targets[0] in alt else ''}): " + exc_text(got))
+        res.out.append(("raises", type(got).__name__))
+        return
+    res.nontriv = True
+    res.out.append(tensor_bytes(got))
+    for a, v in alt.items():
+        if (tensor_bytes(v), v._version) != fp[a]:
+            res.bad(f"{sig}/argument-modified/{a}", f"argument '{a}' was modified by the call")
+    want = f64(ref)
+    if is_corr(fn):
+        k_ = kw0.get("kernel_size", 7)
+        w_ = {a: f64(tens[a]) for a in names}
+        eff = w_.get("mask", w_.get("weight"))
+        if fn == "ncc_loss":
+            cond = 1.0 + ld.global_cond(x, eff) + ld.global_cond(y, eff)
+        elif fn == "wlcc_loss":
+            cond = 1.0 + max(ld.local_cond(x, k_, w_["source_mask"]), ld.local_cond(x, k_, eff)) + max(ld.local_cond(y, k_, w_["target_mask"]), ld.local_cond(y, k_, eff))
+        else:
+            cond = 1.0 + ld.local_cond(x, k_, None) + ld.local_cond(y, k_, None)
+        if not cond < 1e3:
+            res.undef.append("ill-conditioned")
+            return
+        tol = C * EPS32 * cond
+    else:
+        tol = C * EPS32 * scale_of(want) * 4
+    cmp(res, sig, "value-depends-on-layout", f64(got), want, tol, f"'{arg}' given as {form} view vs contiguous tensor of the same values")
+
 # ---------------------------------------------------------------------------
 CASES = {
     "identity": (cases_identity, judge_identity),
@@ -1549,6 +1680,7 @@ CASES = {
     "overlap": (cases_overlap, judge_overlap),
     "module": (cases_module, judge_module),
     "mask-args": (cases_mask_args, judge_mask_args),
+    "layout": (cases_layout, judge_layout),
 }
 
 
@@ -1565,7 +1697,7 @@ def judge_case(case) -> Res:
 def bounds(tier):
     n = {}
     for sub in SUBS:
-        n[sub] = sum(len(CASES[sub][0](tier, sh, p, 0)) for sh in shapes(tier) for p in (pairs(tier) if sub != "overlap" else pairs(tier)[:1]))
+        n[sub] = sum(len(CASES[sub][0](tier, sh, p, 0)) for sh in shapes(tier) for p in (pairs(tier) if sub not in ("overlap", "layout") else pairs(tier)[:1]))
     return {
         "shapes": [list(s) for s in shapes(tier)],
         "image_pairs": [list(p) for p in pairs(tier)],
@@ -1573,6 +1705,7 @@ def bounds(tier):
         "mask_kinds": list(ld.MASK_KINDS),
         "mask_argument_subsets": {"wlcc_loss": 7, "every other loss": 1},
         "mask_dtype_forms": list(MASK_DFORMS),
+        "layout_forms": ["contiguous (reference)"] + list(LAYOUT_FORMS),
         "kernel_sizes": kernels(tier, 2),
         "bins": bins(tier),
         "affine_a": list(AFF_A) + ([-0.5, 7.0] if tier == "thorough" else []),
@@ -1588,7 +1721,7 @@ def shards(tier: str, seed: int):
     out = []
     for sub in SUBS:
         for si in range(len(shapes(tier))):
-            ps = range(len(pairs(tier))) if sub != "overlap" else range(1)
+            ps = range(len(pairs(tier))) if sub not in ("overlap", "layout") else range(1)
             for pi in ps:
                 out.append({"tier": tier, "seed": seed, "sub": sub, "shape": si, "pair": pi})
     return out
